@@ -114,6 +114,7 @@ def run(ctx):
                          'image table kept between callstack requests')
     # ---- code -> spec
     obs, info = [], {}
+    ncli = [0]
     ntext = 0
     for i in range(250 if ctx.quick else 5000):
         w, dump = gen_dump(rnd, big=not ctx.quick and i % 4 == 0)
@@ -145,6 +146,20 @@ def run(ctx):
                                       % (cfg, o['k'], t, want),
                                       {'kind': 'pipeline', 'cfg': cfg, 'file_hex': dump.blob.hex(),
                                        'stream': describe(w, dump.stream)})
+        if i % (8 if ctx.quick else 3) == 0:      # command line == library for the same options
+            from .pipeline import cli_lines, api_lines
+            cmd = rnd.choice(['traces', 'traces', 'callstacks'])
+            col = rnd.choice([True, False])
+            st = rnd.random() < 0.5
+            cnt = rnd.choice([None, 2, 1000])
+            rc, got, args = cli_lines(w, dump, cmd, cfg, ctx.workdir, count=cnt, show_tid=st, color=col)
+            want = api_lines(w, dump, cmd, cfg, count=cnt, show_tid=st, color=col if cmd == 'traces' else True)
+            ncli[0] += 1
+            if rc != 0 or got != want:
+                ctx.violation('C13/cli-differs-from-library/%s' % cmd,
+                              'command line `%s %s` (exit %d) printed %d lines, the library lists %d for the same options'
+                              % (cmd, ' '.join(args), rc, len(got), len(want)),
+                              {'kind': 'pipeline', 'cfg': cfg, 'file_hex': dump.blob.hex(), 'stream': describe(w, dump.stream)})
         oid = 'h%d' % i
         obs.append({'id': oid, 'dump': dump.abstract(), 'reqs': reqs})
         info[oid] = (w, dump, reqs)
@@ -163,7 +178,8 @@ def run(ctx):
     ctx.sample({'dump_events': [(e['tid'], e['cls'], e['q']) for e in obs[0]['dump']['evs']][:12],
                 'requests': [(r['op'], r['cfg'], len(r['out'])) for r in obs[0]['reqs']]})
     ctx.extra['code_to_spec'] = {'histories': nv, 'requests': sum(len(o['reqs']) for o in obs),
-                                 'trace_texts_compared_with_unfiltered_run': ntext}
+                                 'trace_texts_compared_with_unfiltered_run': ntext,
+                                 'command_line_runs_compared_with_library': ncli[0]}
     ctx.assumptions += ['subclass filters outside BSD are out of the statement\'s scope (not generated for non-BSD '
                         'composites)', 'trace identity = (completing event, first event); text compared code vs code']
 
